@@ -176,8 +176,11 @@ pub fn gen_slot(r: &mut Rng, mode: Mode) -> SlotCfg {
             _ => 2,
         };
         let max_pts = if small { 5 } else if two { 5 } else { 9 };
-        let nx = r.range(min_pts, max_pts.max(min_pts));
-        let ny = if two { r.range(min_pts, max_pts.max(min_pts)) } else { 0 };
+        // rarely a long axis (tables, buckets and pools inside the crate may have size thresholds);
+        // long 2-D grids are square, so that default axes coincide
+        let long = !small && mode == Mode::C17 && r.chance(1, 10);
+        let nx = if long { r.range(16, if two { 22 } else { 40 }) } else { r.range(min_pts, max_pts.max(min_pts)) };
+        let ny = if !two { 0 } else if long { nx } else { r.range(min_pts, max_pts.max(min_pts)) };
         // trailing axes
         let n_trailing = match (dimty, two) {
             (DimTy::Ix1, _) => 0,
@@ -203,7 +206,7 @@ pub fn gen_slot(r: &mut Rng, mode: Mode) -> SlotCfg {
         }
         let lanes: usize = shape[if two { 2 } else { 1 }..].iter().product();
         let total: usize = shape.iter().product();
-        let explicit_x = r.chance(3, 4);
+        let explicit_x = if long && two { r.chance(1, 2) } else { r.chance(3, 4) };
         let x = if explicit_x { Some(gen_axis(r, nx, f32ok).into_iter().map(Fb).collect()) } else { None };
         // 2-D: default axes only together (the builder's `new` provides both)
         let y = if two && explicit_x { Some(gen_axis(r, ny, f32ok).into_iter().map(Fb).collect()) } else { None };
@@ -263,6 +266,73 @@ pub fn gen_slot(r: &mut Rng, mode: Mode) -> SlotCfg {
             x_lay: if storage == Storage::View { [Lay::C, Lay::Step2, Lay::Rev][r.weighted(&[6, 1, 1])] } else { Lay::C },
         };
     }
+}
+
+/// a relative of `base`: one aspect changed, everything else (in particular the length and the
+/// end points of the axes) kept
+pub fn mutate_slot(r: &mut Rng, base: SlotCfg) -> SlotCfg {
+    let mut c = base;
+    let two = c.kind.is_2d();
+    let lanes: usize = c.trailing().iter().product();
+    let nx = c.shape[0];
+    match r.below(6) {
+        0 | 1 => {
+            // other interior knots, same end points
+            let mut ax = c.axis_x();
+            if ax.len() >= 3 {
+                for i in 1..ax.len() - 1 {
+                    let (lo, hi) = (ax[i - 1], ax[i + 1]);
+                    let v = lo + (hi - lo) * (0.1 + 0.8 * r.unit());
+                    let v = if c.elem == Elem::F32 { v as f32 as f64 } else { v };
+                    if lo < v && v < hi {
+                        ax[i] = v;
+                    }
+                }
+                c.x = Some(ax.into_iter().map(Fb).collect());
+                if two && c.y.is_none() {
+                    c.y = Some(c.axis_y().into_iter().map(Fb).collect());
+                }
+            }
+        }
+        2 => {
+            // same axes, other data (periodic closure preserved)
+            let f32ok = c.elem == Elem::F32;
+            for (i, d) in c.data.iter_mut().enumerate() {
+                let keep_closed = !two && c.bc == Bc::Periodic && (i < lanes || i >= (nx - 1) * lanes);
+                if !keep_closed {
+                    let v = d.0 + (r.unit() - 0.5) * 3.0;
+                    *d = Fb(if f32ok { v as f32 as f64 } else { v });
+                }
+            }
+        }
+        3 => {
+            // one data value changed
+            if !c.data.is_empty() {
+                let i = r.below(c.data.len());
+                let periodic_end = !two && c.bc == Bc::Periodic && (i < lanes || i >= (nx - 1) * lanes);
+                if !periodic_end {
+                    c.data[i] = Fb(c.data[i].0 + 1.0);
+                }
+            }
+        }
+        4 => {
+            // other boundary condition / extrapolation flag
+            c.extrapolate = !c.extrapolate;
+            if c.kind == Kind::Spline && c.bc != Bc::Periodic {
+                c.bc = [Bc::NotAKnot, Bc::Natural, Bc::Clamped][r.below(3)].clone();
+            }
+        }
+        _ => {
+            // other storage kind, same everything else
+            let st = [Storage::Owned, Storage::View, Storage::Shared, Storage::DataView][r.below(4)];
+            if supported(c.kind, c.elem, st, c.dimty, c.probe_min) {
+                c.storage = st;
+                c.data_lay = Lay::C;
+                c.x_lay = Lay::C;
+            }
+        }
+    }
+    c
 }
 
 /// a few query values per axis on which all threads collide
@@ -684,7 +754,19 @@ fn gen_run_inner(seed: u64, mode: Mode) -> Generated {
         Mode::C17Miri => r.weighted(&[0, 4, 1]),
         _ => r.weighted(&[0, 3, 2, 1]),
     };
-    let slots: Vec<SlotCfg> = (0..n_slots).map(|_| gen_slot(&mut r, mode)).collect();
+    // later slots are often RELATIVES of an earlier one (same length and end points but other
+    // interior knots, same axis but other data / boundary condition / storage ...): anything the
+    // crate keys too weakly - by length, end points, address, a hash of the axis only - then collides
+    let mut slots: Vec<SlotCfg> = vec![];
+    for _ in 0..n_slots {
+        let s = if !slots.is_empty() && mode != Mode::C17Miri && r.chance(1, 2) {
+            let base = slots[r.below(slots.len())].clone();
+            mutate_slot(&mut r, base)
+        } else {
+            gen_slot(&mut r, mode)
+        };
+        slots.push(s);
+    }
     let ctxs: Vec<SlotCtx> = slots.iter().map(|c| slot_ctx(&mut r, c, &faults, mode)).collect();
     let n_threads = match mode {
         Mode::C17Miri => r.range(2, 4),
